@@ -676,6 +676,8 @@ def _leaf_kind(T):
 def _reduce_leaves(name, pairs, kind, mask):
     """pairs: list of (position, value) of non-missing leaves; returns the list of acceptable results."""
     vals = [v for _, v in pairs]
+    if not vals and mask:
+        return [None]
     if name == "count":
         return [len(vals)]
     if name == "count_nonzero":
@@ -711,10 +713,13 @@ def _reduce_leaves(name, pairs, kind, mask):
         if kind == "float" and any(math.isnan(v) for v in vals):
             return [("any",)]
         best = None
-        for pos, v in pairs:
+        for gpos, (pos, v) in enumerate(pairs):
             if best is None or (v < best[1] if name == "argmin" else v > best[1]):
-                best = (pos, v)
-        return [best[0]]
+                best = (pos, v, gpos)
+        # "position within the group": the index along the reduced axis (NumPy's meaning; positions of
+        # missing leaves count).  Where lists that do not reach this column or missing lists precede the
+        # element, the statement admits the position among the group's own elements as well (DESIGN 7).
+        return [best[0]] if best[0] == best[2] else [best[0], best[2]]
     raise ValueError(name)
 
 
